@@ -21,6 +21,10 @@ pub enum Plan {
     PartialErr(u8),
     /// the RNG panics inside the draw
     Panic,
+    /// not an answer: arms `fault` (Err | PartialErr | Panic) to fire on the request during which the bytes
+    /// delivered in this call would reach the given count — i.e. somewhere inside a multi-request fill, wherever
+    /// the implementation's chunk boundaries happen to be
+    FaultAtByte(u64, Box<Plan>),
 }
 
 #[derive(Clone, Copy, Debug, PartialEq, Eq)]
@@ -95,6 +99,9 @@ pub struct SimRng {
     unit_bytes: u64,
     last_word: Vec<u8>,
     pub bytes_delivered: u64,
+    delivered_in_call: u64,
+    armed: Option<(u64, Plan)>,
+    pub err_code: u32,
     /// lean mode for complete word-space sweeps: first request gets `word`, later ones fresh words; no history
     pub sweep: Option<SweepState>,
 }
@@ -121,6 +128,9 @@ impl SimRng {
             unit_bytes: 8,
             last_word: Vec::new(),
             bytes_delivered: 0,
+            delivered_in_call: 0,
+            armed: None,
+            err_code: 0xC000_0007,
             sweep: None,
         }
     }
@@ -161,6 +171,8 @@ impl SimRng {
         self.fresh_bytes_in_call = 0;
         self.total_in_call = 0;
         self.unit_bytes = unit.max(8) as u64;
+        self.delivered_in_call = 0;
+        self.armed = None;
         self.last_word.clear();
         self.plan.clear();
         self.plan.extend(plan.iter().cloned());
@@ -205,7 +217,21 @@ impl SimRng {
             self.events.push(Event { call: self.call, attempt: self.attempt, method, req, resp: Resp::Ok(dest.to_vec()), src: Src::Stream });
             return Ok(());
         }
-        let p = self.plan.pop_front().unwrap_or(Plan::Fresh);
+        let mut p = self.plan.pop_front().unwrap_or(Plan::Fresh);
+        while let Plan::FaultAtByte(n, inner) = p {
+            self.armed = Some((n, *inner));
+            p = self.plan.pop_front().unwrap_or(Plan::Fresh);
+        }
+        if let Some((n, _)) = &self.armed {
+            if self.delivered_in_call + dest.len() as u64 > *n {
+                // the armed fault replaces this request's answer; the planned answer serves the next request
+                let (_, f) = self.armed.take().unwrap();
+                if !matches!(p, Plan::Fresh) {
+                    self.plan.push_front(p);
+                }
+                p = f;
+            }
+        }
         let fallible = method == Method::TryFillBytes && !self.infallible;
         let (resp, src) = match p {
             Plan::Fresh => {
@@ -246,12 +272,14 @@ impl SimRng {
                 (if fallible { Resp::PartialErr(dest[..n].to_vec()) } else { Resp::Panic }, Src::Fault)
             }
             Plan::Panic => (Resp::Panic, Src::Fault),
+            Plan::FaultAtByte(..) => unreachable!(),
         };
         let out = match &resp {
             Resp::Ok(b) => {
                 self.last_word.clear();
                 self.last_word.extend_from_slice(b);
                 self.bytes_delivered += b.len() as u64;
+                self.delivered_in_call += b.len() as u64;
                 Ok(())
             }
             Resp::Err | Resp::PartialErr(_) => Err(()),
@@ -280,7 +308,7 @@ impl RngCore for SimRng {
         let _ = self.serve(Method::FillBytes, dest);
     }
     fn try_fill_bytes(&mut self, dest: &mut [u8]) -> Result<(), Error> {
-        self.serve(Method::TryFillBytes, dest)
-            .map_err(|_| Error::from(NonZeroU32::new(Error::CUSTOM_START + 7).unwrap()))
+        let code = NonZeroU32::new(self.err_code.max(1)).unwrap();
+        self.serve(Method::TryFillBytes, dest).map_err(|_| Error::from(code))
     }
 }
